@@ -104,3 +104,111 @@ example :
   decide
 
 end Gittuf
+
+namespace Gittuf
+
+/-- `State.Verify` accepts a state only if its primary rule file is signed by a threshold of
+DISTINCT keys of the primary-rule-file role its own root names. -/
+theorem C02_verify_primary_signed (P : Policy) (h : P.verify = .ok ()) : primarySigned P = true := by
+  unfold Policy.verify at h
+  simp only [bind, Except.bind] at h
+  split at h
+  · cases h
+  · unfold primarySigned
+    split at h
+    · rename_i hp; simp [hp]
+    · rename_i tf hp
+      simp only [hp]
+      split at h
+      · cases h
+      · split at h
+        · cases h
+        · rename_i u hu
+          unfold liftV at hu
+          split at hu
+          · rename_i S hS
+            exact keyVerifier_sound _ _ _ S hS
+          · cases hu
+          · cases hu
+
+/-- every delegated rule file the delegation pass records as reached had its envelope accepted by the
+verifier built from a rule of that name (its principals looked up in the definitions seen so far, its
+threshold) -/
+theorem verifyDelegations_reached (P : Policy) (fuel : Nat) (queue : List Rule) (defs : List PrincipalSpec)
+    (reached out : List String) (h : verifyDelegations P fuel queue defs reached = .ok out) :
+    ∀ n ∈ out, n ∈ reached ∨ ∃ (d : Rule) (defs' : List PrincipalSpec) (f : RuleFile) (S : List PId),
+      d.name = n ∧ P.file? n = some f ∧
+      Verifier.verify { principals := lookupPrincipals defs' d.principals, threshold := d.threshold }
+        none 0 (some (envelopeOf f.signers)) = .ok S := by
+  induction fuel generalizing queue defs reached with
+  | zero => simp [verifyDelegations] at h
+  | succ fuel ih =>
+    unfold verifyDelegations at h
+    split at h
+    · cases h; intro n hn; exact Or.inl hn
+    · cases h; intro n hn; exact Or.inl hn
+    · rename_i d rest hne
+      split at h
+      · split at h
+        · cases h
+        · rename_i f hf
+          dsimp only at h
+          split at h
+          · cases h
+          · rename_i hv
+            intro n hn
+            rcases ih _ _ _ h n hn with h1 | h1
+            · rcases List.mem_cons.mp h1 with h2 | h2
+              · subst h2
+                right
+                unfold liftV at hv
+                split at hv
+                · rename_i S hS
+                  exact ⟨d, defs, f, S, rfl, hf, hS⟩
+                · cases hv
+                · cases hv
+              · exact Or.inl h2
+            · exact Or.inr h1
+      · exact ih _ _ _ h
+
+/-- `State.Verify` accepts a state only if every delegated rule file it contains was reached through a
+rule of that name and its envelope was accepted by that rule's verifier: no dangling rule file, no
+delegated file taken on trust. -/
+theorem C02_verify_delegations (P : Policy) (h : P.verify = .ok ()) :
+    ∀ f ∈ P.delegated, ∃ (d : Rule) (defs' : List PrincipalSpec) (f' : RuleFile) (S : List PId),
+      d.name = f.name ∧ P.file? f.name = some f' ∧
+      Verifier.verify { principals := lookupPrincipals defs' d.principals, threshold := d.threshold }
+        none 0 (some (envelopeOf f'.signers)) = .ok S := by
+  unfold Policy.verify at h
+  simp only [bind, Except.bind] at h
+  split at h
+  · cases h
+  · split at h
+    · -- no primary rule file: then there must be no delegated file either?  (files.head? = none ⇒ files = [])
+      rename_i hp
+      intro f hf
+      unfold Policy.delegated at hf
+      unfold Policy.primary at hp
+      cases hfiles : P.files with
+      | nil => rw [hfiles] at hf; cases hf
+      | cons a as => rw [hfiles] at hp; cases hp
+    · rename_i tf hp
+      split at h
+      · cases h
+      · split at h
+        · cases h
+        · split at h
+          · cases h
+          · rename_i reached hreached
+            split at h
+            · rename_i hall
+              intro f hf
+              have hin : f.name ∈ reached := by
+                have := List.all_eq_true.mp hall f hf
+                simpa using this
+              rcases verifyDelegations_reached P _ _ _ _ _ hreached f.name hin with h1 | h1
+              · cases h1
+              · exact h1
+            · cases h
+
+end Gittuf
